@@ -135,3 +135,33 @@ Qed.
 Lemma index_pinned_refuted :
   exists text gs, parse_index false text = IndexOk gs /\ parse_index true text = IndexError.
 Proof. exists [91; 32; 103; 32; 93; 32; 49; 32; 50; 32; 120; 32; 51]. eexists. split; vm_compute; reflexivity. Qed.
+
+(* ------------------------------------------------------------------ parse_required and key_already_set *)
+
+(* a keyword looked up with parse_required in a text that does not contain it is an error exactly when no earlier call
+   on the same parser object has marked it (by reading a value text or by assigning the default); on a fresh object
+   it is always an error *)
+Lemma kv_required_missing : forall st ovr conf key,
+  ksv_found (key_string_values conf key) = false -> ksv_data (key_string_values conf key) = [] ->
+  ko_err (snd (kv_call st true ovr conf key)) = ksv_err (key_string_values conf key) || negb (kv_set st) /\
+  fst (kv_call st true ovr conf key) = st.
+Proof.
+  intros st ovr conf key Hf Hd. unfold kv_call. rewrite Hd, Hf. cbn. split; reflexivity.
+Qed.
+
+Lemma kv_required_missing_fresh : forall v ovr conf key,
+  ksv_found (key_string_values conf key) = false -> ksv_data (key_string_values conf key) = [] ->
+  ko_err (snd (kv_call {| kv_set := false; kv_val := v |} true ovr conf key)) = true.
+Proof.
+  intros v ovr conf key Hf Hd. destruct (kv_required_missing {| kv_set := false; kv_val := v |} ovr conf key Hf Hd) as [E _].
+  rewrite E. cbn. apply orb_true_r.
+Qed.
+
+(* without parse_required: the default is assigned (and the key marked) iff parse_override is given or the key was
+   not set before; otherwise the value is left as it is *)
+Lemma kv_default_rule : forall st ovr conf key,
+  ksv_found (key_string_values conf key) = false -> ksv_data (key_string_values conf key) = [] ->
+  ko_val (snd (kv_call st false ovr conf key)) = (if ovr || negb (kv_set st) then KvDefault else kv_val st).
+Proof.
+  intros st ovr conf key Hf Hd. unfold kv_call. rewrite Hd, Hf. cbn. destruct (ovr || negb (kv_set st)); reflexivity.
+Qed.
